@@ -439,7 +439,7 @@ impl Prop for C10 {
     fn runs(&self, t: Tier) -> u64 {
         match t {
             Tier::Quick => 10_000,
-            Tier::Thorough => 500_000,
+            Tier::Thorough => 2_000_000,
         }
     }
     fn nontrivial_rule(&self) -> &'static str {
